@@ -334,6 +334,23 @@ class ChartRun(object):
     else:
       raise ValueError(b)
     self.build.vars = self.vars
+    if sc.get('twin') and b in ('template', 'factory', 'to_code'):
+      # a second chart of the same kind, assembled afterwards from states with the very same names but with nothing in
+      # them and another nesting: two charts in one process must not see each other's callback and parent tables
+      tspec = Spec(copy.deepcopy(sc['spec']))
+      for st in tspec.d['states']:
+        st['react'], st['init'], st['fx'], st['parent'] = {}, None, {}, None
+      tspec = Spec(tspec.d)
+      try:
+        if host == 'factory':
+          self.twin = ao.Factory('twin')
+          chartgen.build_factory(tspec, lambda *a: None, self.twin, effects=None)
+        else:
+          self.twin = hsm.HsmWithQueues()
+          chartgen.build_template(tspec, lambda *a: None, self.twin, effects=None)
+        self.sim.probe('second_chart_with_the_same_state_names')
+      except kernel.SimAbort:
+        raise
     for n_, h_ in self.build.h.items():
       self.rev[id(h_)] = n_
       w_ = getattr(h_, '__wrapped__', None)
